@@ -73,6 +73,7 @@ class TrioRun:
     exchange_clean = AsyncRun.exchange_clean
     streams_with_token = AsyncRun.streams_with_token
     route_of = AsyncRun.route_of
+    hop_forms = AsyncRun.hop_forms
     _route_via_proxy = AsyncRun._route_via_proxy
     _origins_of_calls = AsyncRun._origins_of_calls
     snapshot = AsyncRun.snapshot
@@ -272,4 +273,6 @@ class TrioRun:
         return self
 
     def finish(self):
+        if getattr(self, "harness_error", None) is not None:
+            raise self.harness_error
         self.record = False
